@@ -201,6 +201,7 @@ verif_proof! { [C02 C03 C17 C19]
                 assert!(mv.file.as_raw_fd() == unsafe { PATH_INODE }, "[C02] after commit the handle does not refer to the file at the path");
                 assert!(mv.generation == new_gen && mv.data_end == new_end && mv.toc.frames.len() == frames0 + 1, "[C02] successful commit lost the committed in-memory state");
                 assert!(mv.wal.file().as_raw_fd() == unsafe { PATH_INODE }, "[C02] after commit the log handle is not open on the file at the path: later puts would be written elsewhere");
+                kani::cover!(true, "commit succeeded");
                 // C17: the writer lock must be held on the inode the path names now
                 let lock_handle = mv.lock.clone_handle();
                 match &lock_handle {
@@ -209,7 +210,6 @@ verif_proof! { [C02 C03 C17 C19]
                 }
                 assert!(mv.lock.mode() == crate::lock::LockMode::Exclusive, "[C17] lock mode changed by commit");
                 leak(lock_handle);
-                kani::cover!(true, "commit succeeded");
             }
             Err(_) => {
                 assert!(unsafe { OP_FAILS } || unsafe { RENAME_FAILS }, "[C02] commit failed although nothing failed");
